@@ -101,13 +101,24 @@ value is the normalised value. -/
 def projectTop (fs fs' : Fields) (vs prior : List Val) : List Val :=
   projectWith (lookupWith (fun t _ v => t.norm v) fs vs) fs' prior
 
-/-- the prior value list fits: one value per target field, and a field that the
-data is going to fill starts from its zero value. (Decoding onto a non-zero
-value of a shared field merges — slices append, maps and structs are updated in
-place — which is property C10, not this one.) -/
+/-- codecs whose `Read` replaces the target value outright, whatever it held
+before: everything except the merging ones — repeated fields append, maps and
+structs are updated in place (and a pointer behaves like its target). -/
+def Ty.overwrites : Ty → Bool
+  | .bool | .int _ | .uint _ | .flat _ | .f32 | .f64 | .str _ | .bytes | .time _ => true
+  | .vslice _ | .fslice _ | .lslice _ => true
+  | .ptr t => t.overwrites
+  | .pslice _ | .struct _ _ | .map _ _ _ => false
+
+/-- the prior value list fits: one value per target field; a field that the
+data is going to fill holds anything if its codec overwrites, and its zero value
+if its codec merges (decoding onto a non-zero slice of a repeated field, map or
+struct merges into it: that is property C10, not this one). Fields the data
+does not fill are unconstrained. -/
 def priorFitsWith (look : Nat → Ty → Option Val) : Fields → List Val → Prop
   | [], [] => True
-  | (i', _, t') :: r', p :: ps => ((look i' t').isSome = true → p = t'.zero) ∧ priorFitsWith look r' ps
+  | (i', _, t') :: r', p :: ps =>
+      ((look i' t').isSome = true → p = t'.zero ∨ t'.overwrites = true) ∧ priorFitsWith look r' ps
   | _, _ => False
 
 def priorFits (fs fs' : Fields) (vs prior : List Val) : Prop :=
